@@ -88,15 +88,26 @@ def one_case(run, bench, rng, raw, off):
     if off:
         run.count("offsets_nonzero")
     # secondary oracle: the model must see the same consumed bytes
+    disagree = None
     if st == "ok":
         mcons = set(p - off for p in mr.trace.consumed())
         if mcons != consumed:
-            run.count("harness_disagreement")
-            run.inconclusive_because("model-and-trace-disagree-on-consumed-bytes")
-            run.extra.setdefault("disagreements", []).append(dict(witness, model=sorted(mcons), trace=sorted(consumed)))
-            return
+            disagree = dict(witness, model=sorted(mcons), trace=sorted(consumed))
     elif st == "fail":
         run.count("model_rejects_but_library_accepts(C04 business)")
+    before = run.counters["violations"] + sum(v["count"] for v in run.known_hits.values())
+    judge_pack(run, bench, rng, raw, off, res, spans, consumed, overlap, extent, witness)
+    after = run.counters["violations"] + sum(v["count"] for v in run.known_hits.values())
+    if disagree is not None and after == before:
+        # the model-free oracle found nothing but the reference model reads other bytes than the library did:
+        # one of the two misrepresents the declaration -> not a verdict
+        run.count("harness_disagreement")
+        run.inconclusive_because("model-and-trace-disagree-on-consumed-bytes")
+        run.extra.setdefault("disagreements", []).append(disagree)
+
+
+def judge_pack(run, bench, rng, raw, off, res, spans, consumed, overlap, extent, witness):
+    fam = bench.fam
     pr = harness.lib_pack(res.pkt)
     cls_key = (bench.skeleton, min(off, 2), min(len(spans), 6), len(consumed) < extent, overlap)
     run.case(key=cls_key, nontrivial=bool(consumed), n=0)
